@@ -174,6 +174,12 @@ func renderAtomConstraint(w *yw, ind int, a Atom) {
 		w.line(ind, fmt.Sprintf("%s: %s", a.Kind, yq(a.Other.Render())))
 	case "datatype":
 		w.line(ind, fmt.Sprintf("datatype: %s", yq(compactDt(a.Dt))))
+	case "pattern":
+		w.line(ind, fmt.Sprintf("pattern: %s", yq(a.Dt)))
+	case "uniqueValues":
+		w.line(ind, fmt.Sprintf("uniqueValues: %v", a.Dt == "true"))
+	case "moreThanProperty", "moreThanOrEqualsToProperty":
+		w.line(ind, fmt.Sprintf("%s: %s", a.Kind, yq(a.Other.Render())))
 	default:
 		panic("atom kind " + a.Kind)
 	}
